@@ -330,6 +330,16 @@ CORPUS.append(
      "tasks": [{"tid": 100, "forest": [[0, 1000, 11 * 10 ** 9 + 5000,
                                         [[1, 2000, 2100, []], [1, 2200, 2500, []], [2, 2600, 2600, []], [2, 2700, 2700, []],
                                          [3, 3000, 3000 + 5 * 10 ** 9, []], [3, 4000 + 5 * 10 ** 9, 4000 + 11 * 10 ** 9, []]]]]}]})
+CORPUS.append(
+    # known finding lost-in-inherited-data: a LOST marker in data that starts at depth > 0 (user_stack_count was
+    # never set to the inherited depth) closes the innermost open call with 1 ns and counts it twice
+    {"kind": "lost", "max_stack": 1024, "tags": ["corpus:lost-in-inherited-data"],
+     "syms": [(0x1000, 0x80, "T", "main"), (0x1100, 0x80, "T", "work"), (0x1200, 0x80, "T", "leaf"), (0x1300, 0x80, "T", "fork")],
+     "fns": [(BASE + 0x1000, "main"), (BASE + 0x1100, "work"), (BASE + 0x1200, "leaf"), (BASE + 0x1300, "fork")],
+     "tasks": [{"tid": 100, "recs": [(EXIT, 1, BASE + 0x1300, 1310), (ENTRY, 1, BASE + 0x1100, 1400),
+                                     (ENTRY, 2, BASE + 0x1200, 1500), (LOST, 0, 1, 0), (EXIT, 2, BASE + 0x1200, 1800),
+                                     (EXIT, 1, BASE + 0x1100, 1900), (EXIT, 0, BASE + 0x1000, 2000)]}]})
+WITNESS_LOST_INHERITED = "corpus:lost-in-inherited-data"
 WITNESS_LOST_WRAP = "corpus:lost-after-inherited-wrap"
 
 
@@ -1107,6 +1117,18 @@ def known_findings(ctx, kept):
                               still_fails=bool(wrapped), replay={"case": case_json(case), "impl": case["impl"]})
 
 
+def known_finding_lost_inherited(ctx, kept):
+    """lost-in-inherited-data: the witness runs on the implementation on every run; still failing = leaf (called
+    once, 300 ns) is listed with 2 calls.  Model side: C08_lost_in_inherited_refuted."""
+    for case in kept:
+        if WITNESS_LOST_INHERITED in case["tags"]:
+            leaf = [n for n in case["impl"]["nodes"] if n[0] == "leaf"]
+            ctx.known_finding("lost-in-inherited-data",
+                              "a LOST marker in data that starts at depth > 0 closes the innermost open call with 1 ns "
+                              "and counts it twice: %s" % (leaf or case["impl"]["nodes"]),
+                              still_fails=bool(leaf) and leaf[0][1] != 1, replay={"case": case_json(case), "impl": case["impl"]})
+
+
 def run(ctx):
     common_meta(ctx)
     objdir, exe = setup(ctx)
@@ -1114,6 +1136,7 @@ def run(ctx):
     terms, kept, eterms, ekept = explore(ctx, objdir, exe, cases, ctx.n(36, 400))
     ctx.log("explored %d cases (%d end-to-end) on the implementation" % (len(kept), len(ekept)))
     known_findings(ctx, kept)
+    known_finding_lost_inherited(ctx, kept)
     # evaluate in chunks (keeps each vm_compute file moderate); the e2e cases are the first ones
     chunk = 600
     for a in range(0, max(len(terms), 1), chunk):
